@@ -5,4 +5,4 @@ From Coq Require Extraction.
 From Coq Require Import ExtrOcamlBasic.
 From CFDP Require Import Base Run.
 Extraction Language OCaml.
-Extraction "model.ml" run_lostseg run_checksum run_fs run_dest run_source.
+Extraction "model.ml" run_lostseg run_checksum run_fs run_dest run_source run_system.
